@@ -81,11 +81,6 @@ Lemma set_cpsr_set_cpsr s p q : set_cpsr (set_cpsr s p) q = set_cpsr s q.
 Proof. unfold set_cpsr. cbn [sys set_sys]. rewrite setl_setl_same. reflexivity. Qed.
 Lemma len_set_cpsr s p : length (sys (set_cpsr s p)) = length (sys s).
 Proof. unfold set_cpsr. cbn [sys set_sys]. apply setl_length. Qed.
-Lemma setl_getl_same l i : 0 <= i < Z.of_nat (length l) -> setl l i (getl l i) = l.
-Proof.
-  intros H. unfold setl, getl. assert (Hn : (Z.to_nat i < length l)%nat) by lia. revert Hn. generalize (Z.to_nat i).
-  clear H. induction l as [|a t IH]; intros [|n] Hn; cbn in *; try lia; [reflexivity|]. f_equal. apply IH. lia.
-Qed.
 Lemma set_cpsr_same s : length (sys s) = n_sys -> set_cpsr s (getl (sys s) 0) = s.
 Proof. intros H. unfold set_cpsr. rewrite setl_getl_same by (unfold n_sys in H; lia). apply set_sys_id. Qed.
 
